@@ -11,7 +11,12 @@ package main
 //	mrule   confirmed rule of the contract method c0.run ($xvkv.run), `N` = none stored
 //	owners  confirmed XCContract2Account entries `c<i>=a<j>`           (c0 = $xvkv, c<i> = contract<i>)
 //	pend    unconfirmed writes sitting in the pool, in order: `a<i>=<rule>` (the account's rule is being changed / the
-//	        account is being created), `c<i>=a<j>` (an owner entry), `m=<rule>` (the rule of c0.run)
+//	        account is being created), `c<i>=a<j>` (an owner entry), `m=<rule>` (the rule of c0.run).
+//	        An entry prefixed `~` is pending on this node AND carried by a side-branch block the ledger stores: after
+//	        the pool is filled the chain grows by an empty block 2A (the tip) and a competing block 2B of the same height,
+//	        arriving second (no trunk switch), that holds the marked transactions.  An entry prefixed `^` sits ONLY in
+//	        that side-branch block: this node never admitted it.  Neither is on the confirmed chain: `~` counts like any
+//	        pending entry, `^` counts for nothing.
 //
 // The fault armed while VerifyTx runs (`-` = none); target <t> = a name (the key XCAccount/<t>) or a method rule key:
 // `m` (c0.run), `ma` / `mn` / `mm` ($acl.SetAccountAcl / NewAccount / SetMethodAcl):
@@ -127,6 +132,7 @@ func eURIs(us []uri) []string {
 // ---------------------------------------------------------------- parsing
 
 type pendEntry struct {
+	side   byte   // 0 | '~' also in a side-branch block | '^' only in a side-branch block
 	target string // a<i> | c<i> | m
 	rule   *rule  // for a<i> and m
 	owner  string // for c<i>
@@ -195,6 +201,10 @@ func parseEChain(envS, mruleS, ownersS, pendS string) (*eChain, error) {
 		c.owners[kv[0]] = kv[1]
 	}
 	for _, f := range strings.Fields(pendS) {
+		var side byte
+		if f[0] == '~' || f[0] == '^' {
+			side, f = f[0], f[1:]
+		}
 		kv := strings.SplitN(f, "=", 2)
 		if len(kv) != 2 {
 			return nil, errors.New("bad pending entry")
@@ -205,13 +215,15 @@ func parseEChain(envS, mruleS, ownersS, pendS string) (*eChain, error) {
 			if err != nil || r.kind == 'N' || !namesOK(r) {
 				return nil, errors.New("bad pending rule")
 			}
-			c.pend = append(c.pend, pendEntry{target: kv[0], rule: r})
+			c.pend = append(c.pend, pendEntry{side: side, target: kv[0], rule: r})
 		case eContrOK(kv[0]) && eTokOK(kv[1]) && !isKeyTok(kv[1]):
-			c.pend = append(c.pend, pendEntry{target: kv[0], owner: kv[1]})
+			c.pend = append(c.pend, pendEntry{side: side, target: kv[0], owner: kv[1]})
 		default:
 			return nil, errors.New("bad pending entry")
 		}
-		c.pendSet[kv[0]] = true
+		if side != '^' {
+			c.pendSet[kv[0]] = true // a transaction this node never admitted is not pending here
+		}
 	}
 	return c, nil
 }
@@ -417,6 +429,8 @@ func rawTx(n *chainlib.Node, ws []*protos.TxOutputExt, nonce string) (*pb.Transa
 	return tx, err
 }
 
+func bytesEq(a, b []byte) bool { return string(a) == string(b) }
+
 func ruleJSON(r *rule) []byte {
 	b, _ := json.Marshal(r.toACLn(eName))
 	return b
@@ -530,6 +544,7 @@ func getImage(c *eChain, key string) (*image, error) {
 		tip = blk
 	}
 	im.tip = tip
+	var sideTxs []*pb.Transaction
 	// the pool
 	for i, p := range c.pend {
 		var w *protos.TxOutputExt
@@ -545,10 +560,50 @@ func getImage(c *eChain, key string) (*image, error) {
 		if err != nil {
 			return nil, err
 		}
+		if p.side != 0 {
+			tc := *tx
+			tc.ReceivedTimestamp = 0
+			sideTxs = append(sideTxs, &tc)
+		}
+		if p.side == '^' {
+			continue
+		}
 		if err := n.S.DoTx(tx); err != nil {
 			return nil, fmt.Errorf("pending DoTx: %v", err)
 		}
 		im.pendTx[p.target] = append(im.pendTx[p.target], tx)
+	}
+	// a fork without trunk switch: 2A (empty) arrives first and becomes the tip, 2B carries the marked transactions and
+	// is stored by the ledger as a side branch; the state machine never walks to it
+	if len(sideTxs) > 0 {
+		h := tip.Height + 1
+		b2a, err := n.MakeBlock(miner, tip.Blockid, h, nil, 2e9+1)
+		if err != nil {
+			return nil, err
+		}
+		b2b, err := n.MakeBlock(miner, tip.Blockid, h, sideTxs, 2e9+2)
+		if err != nil {
+			return nil, err
+		}
+		if st := n.L.ConfirmBlock(chainlib.CloneBlock(b2a), false); !st.Succ {
+			return nil, fmt.Errorf("confirm block 2A: %v", st.Error)
+		}
+		if err := n.S.PlayForMiner(b2a.Blockid); err != nil {
+			return nil, fmt.Errorf("play block 2A: %v", err)
+		}
+		st := n.L.ConfirmBlock(chainlib.CloneBlock(b2b), false)
+		if !st.Succ || st.TrunkSwitch {
+			return nil, fmt.Errorf("block 2B must be stored as a side branch: %+v", st)
+		}
+		if !bytesEq(n.L.GetMeta().TipBlockid, b2a.Blockid) || !bytesEq(n.S.GetLatestBlockid(), b2a.Blockid) {
+			return nil, errors.New("the tip must still be block 2A")
+		}
+		for _, t := range sideTxs {
+			if _, err := n.L.QueryTransaction(t.Txid); err != nil {
+				return nil, fmt.Errorf("the ledger does not hold a transaction of the side block: %v", err)
+			}
+		}
+		im.tip = b2a
 	}
 	images[key] = im
 	return im, nil
@@ -1050,6 +1105,11 @@ var eConfigs = [][4]string{ // env, mrule, owners, pend
 	{"a0=T:2:k0=1,k1=1,k2=1 a1=T:4:a0=4 a2=T:1:k2=1", "T:2:a1=2,k3=2", "c0=a1 c1=a2", "c0=a2 a2=T:4:k0=4"},
 	{"a0=T:4:k0=4,k1=-4 a1=S: a3=T:0:k0=1", "S:k0+k1;k2", "c1=a3 c2=a1", "m=S:k3"},
 	{"", "N", "", "a0=T:4:k0=4 c0=a0"},
+	// pending changes that are also carried by a side-branch block the ledger stores (~), changes that sit only there (^)
+	{"a0=T:4:k1=4", "N", "c0=a0", "~a0=T:4:k0=4"},
+	{"a0=T:4:k1=4 a1=S:k2", "T:4:k2=4", "c0=a0 c1=a1", "^a0=T:4:k0=4 ~m=T:4:k0=4 ^c1=a0"},
+	{"a0=T:4:k1=2,k2=2 a1=S:k0;k1+k2", "T:4:k2=4", "c0=a0 c1=a1", "~a1=T:4:k3=4 ^m=T:4:k0=4 ~c1=a0 a0=S:k3"},
+	{"a0=S:k0+k1 a1=T:2:k2=2", "S:k1", "c0=a1", "^a0=S:k3 ~m=S:k3 ^c2=a0 ~a3=T:4:k3=4 ~a0=S:k4"},
 }
 
 func eRandRule(rng *xvlib.Rng) string {
@@ -1106,14 +1166,19 @@ func eRandConfig(rng *xvlib.Rng) [4]string {
 		}
 	}
 	np := rng.Intn(4)
+	sideCfg := rng.Chance(1, 2) // half of the chains have a side branch
 	for i := 0; i < np; i++ {
+		mark := ""
+		if sideCfg {
+			mark = []string{"", "~", "~", "^"}[rng.Intn(4)]
+		}
 		switch rng.Intn(5) {
 		case 0:
-			pendL = append(pendL, fmt.Sprintf("c%d=a%d", rng.Intn(eNContr), rng.Intn(eNAccts)))
+			pendL = append(pendL, fmt.Sprintf("%sc%d=a%d", mark, rng.Intn(eNContr), rng.Intn(eNAccts)))
 		case 1:
-			pendL = append(pendL, "m="+eRandRule(rng))
+			pendL = append(pendL, mark+"m="+eRandRule(rng))
 		default:
-			pendL = append(pendL, fmt.Sprintf("a%d=%s", rng.Intn(eNAccts), eRandRule(rng)))
+			pendL = append(pendL, fmt.Sprintf("%sa%d=%s", mark, rng.Intn(eNAccts), eRandRule(rng)))
 		}
 	}
 	return [4]string{strings.Join(envL, " "), mr, strings.Join(ownL, " "), strings.Join(pendL, " ")}
@@ -1253,6 +1318,13 @@ func eRandTx(rng *xvlib.Rng, c *eChain) string {
 		var below func(prefix string, a string, depth int)
 		below = func(prefix string, a string, depth int) {
 			r := c.env[a]
+			// sometimes the signers are those of a rule that is NOT in force: a pending change, or one that only a
+			// side-branch block carries
+			for _, p := range c.pend {
+				if p.target == a && p.rule != nil && rng.Chance(1, 3) {
+					r = p.rule
+				}
+			}
 			if r == nil {
 				add(prefix + "/" + key())
 				return
@@ -1345,8 +1417,9 @@ func eRandTx(rng *xvlib.Rng, c *eChain) string {
 		case 2:
 			fault = "ev:" + t
 			if rng.Bool() && len(c.pend) > 0 {
-				fault = "ev:" + c.pend[rng.Intn(len(c.pend))].target
-				if fault[3] == 'c' {
+				pe := c.pend[rng.Intn(len(c.pend))]
+				fault = "ev:" + pe.target
+				if fault[3] == 'c' || pe.side == '^' {
 					fault = "ev:" + t
 				}
 				if len(acts) == 0 && fault[3] == 'a' && rng.Bool() {
